@@ -405,7 +405,7 @@ func runC06(w *core.W) {
 	w.ExhaustivePart(fmt.Sprintf("every operator on every (pair of) the %d operand values at depth 1", len(tLeaves)))
 	// nested
 	r := w.RNG("nested")
-	for i, n := 0, w.Pick(8000, 150000); i < n; i++ {
+	for i, n := 0, w.Pick(48000, 600000); i < n; i++ {
 		t := randTNode(r, 2+r.Intn(2))
 		c06Select(w, t)
 		w.Count("nested_cases")
